@@ -1053,6 +1053,26 @@ class Idioms3(ast.NodeTransformer):
                 func=ast.Name(id="range", ctx=ast.Load()),
                 args=[it.args[1]], keywords=[]), it)
             ast.fix_missing_locations(node)
+        # for x in (v for v in IT if c) -> for x in IT: if not c: continue
+        if isinstance(it, (ast.GeneratorExp, ast.ListComp)) and len(
+                it.generators) == 1 and not it.generators[0].is_async and \
+                isinstance(it.generators[0].target, ast.Name) and \
+                isinstance(it.elt, ast.Name) and it.elt.id == \
+                it.generators[0].target.id and isinstance(
+                    node.target, ast.Name) and it.generators[0].ifs:
+            g = it.generators[0]
+            v, t = g.target.id, node.target.id
+            if v == t or not any(isinstance(n, ast.Name) and n.id == t
+                                 for c in g.ifs for n in ast.walk(c)):
+                conds = [_rename(clone(c), v, t) for c in g.ifs]
+                test = conds[0] if len(conds) == 1 else ast.BoolOp(
+                    op=ast.And(), values=conds)
+                skip = ast.If(test=ast.UnaryOp(op=ast.Not(), operand=test),
+                              body=[ast.Continue()], orelse=[])
+                node.iter = g.iter
+                node.body = [skip] + node.body
+                ast.copy_location(skip, node)
+                ast.fix_missing_locations(node)
         return node
 
     def visit_While(self, node):
@@ -1109,6 +1129,27 @@ class Idioms3(ast.NodeTransformer):
             ast.copy_location(loop, node)
             ast.fix_missing_locations(loop)
             return loop
+        # np.putmask(x, m, 0) / np.place(x, m, 0) /
+        # np.copyto(x, 0, where=m) with a scalar literal -> x[m] = 0
+        if isinstance(c, ast.Call) and norm(c.func) in (
+                "np.putmask", "numpy.putmask", "np.place", "numpy.place",
+                "np.copyto", "numpy.copyto"):
+            kw = {k.arg: k.value for k in c.keywords}
+            tgt = msk = val = None
+            if norm(c.func).endswith("copyto"):
+                if len(c.args) == 2 and set(kw) == {"where"}:
+                    tgt, val, msk = c.args[0], c.args[1], kw["where"]
+            elif len(c.args) == 3 and not kw:
+                tgt, msk, val = c.args
+            if tgt is not None and isinstance(tgt, ast.Name) and (
+                    _closed_number(val) is not None or (isinstance(
+                        val, ast.Constant) and isinstance(
+                        val.value, (bool, int, float)))):
+                new = ast.Assign(targets=[ast.Subscript(
+                    value=tgt, slice=msk, ctx=ast.Store())], value=val)
+                ast.copy_location(new, node)
+                ast.fix_missing_locations(new)
+                return new
         # setattr(x, "name", v) -> x.name = v
         if isinstance(c, ast.Call) and norm(c.func) == "setattr" and \
                 len(c.args) == 3 and not c.keywords and isinstance(
